@@ -133,13 +133,22 @@ type File struct {
 	Regexes  []*RegexDecl
 	Structs  []*StructDecl
 	Sweeps   []*Sweep
+	CodecPairs []*CodecPairs
+}
+
+// CodecPairs declares that every type below the package prefix with an Encode and a Decode method is checked as a pair.
+type CodecPairs struct {
+	PkgPrefix string
+	Props     []string
+	File      string
+	Line      int
 }
 
 var keywords = map[string]bool{
 	"func": true, "trusted": true, "props": true, "mode": true, "requires": true, "ensures": true,
 	"modifies": true, "loop": true, "at-call": true, "at-store": true, "inline": true, "pure": true,
 	"spec": true, "axiom": true, "guarded_by": true, "monitor": true, "census": true, "panics": true,
-	"why:": true, "regexlang": true, "recovers": true, "closure-only": true, "recovers-errors": true, "passed-only": true, "uses-param": true, "params": true, "ghostfield": true, "ufn": true, "checks": true, "nobody": true, "ghost": true, "maypanic": true, "splitpaths": true, "reach": true, "sweep": true, "sweep-reachable": true, "ghostpre": true, "errpanics": true,
+	"why:": true, "regexlang": true, "recovers": true, "closure-only": true, "recovers-errors": true, "passed-only": true, "uses-param": true, "params": true, "ghostfield": true, "ufn": true, "checks": true, "nobody": true, "ghost": true, "maypanic": true, "splitpaths": true, "reach": true, "sweep": true, "sweep-reachable": true, "ghostpre": true, "codec-pairs": true, "errpanics": true,
 }
 
 type rawLine struct {
@@ -238,6 +247,16 @@ func ParseFile(filename, pkg, src string) (*File, error) {
 			cur.ErrPanics = true
 		case "ghostpre":
 			cur.GhostPre = true
+		case "codec-pairs":
+			// codec-pairs <package path prefix> ; props C04
+			main, props, _ := strings.Cut(rest, ";")
+			cp := &CodecPairs{PkgPrefix: strings.TrimSpace(main), File: filename, Line: r.line}
+			pf := strings.Fields(props)
+			if len(pf) > 1 {
+				cp.Props = pf[1:]
+			}
+			f.CodecPairs = append(f.CodecPairs, cp)
+			cur = nil
 		case "sweep", "sweep-reachable":
 			// sweep <package path prefix> <function or method name> ; props C05
 			main, props, _ := strings.Cut(rest, ";")
